@@ -250,6 +250,16 @@ fn replay_one(obs: &Value, owner: &[usize], nm: usize, variant: usize) -> Result
             t.filter_nodes(|n| keep.contains(n.module().path().as_str()));
             checks += check_view(&format!("filter_nodes({keep:?})"), &t, &f["view"], &b, &gate_path)?;
         }
+        for a in obs["asym"].as_array().unwrap() {
+            let lt = a["dir"] == "lt";
+            let idx = |p: &str| b.mod_paths.iter().position(|x| x == p).unwrap();
+            let mut t = topo.clone();
+            t.filter_edges(|e| {
+                let (f, to) = (idx(e.from.module().path().as_str()), idx(e.to.module().path().as_str()));
+                if lt { f < to } else { f > to }
+            });
+            checks += check_view(&format!("filter_edges(from {} to)", if lt { "<" } else { ">" }), &t, &a["view"], &b, &gate_path)?;
+        }
         for d in obs["dijkstra"].as_array().unwrap() {
             let src = &b.mod_paths[d["src"].as_u64().unwrap() as usize - 1];
             let map = topo.dijkstra(src.as_str());
@@ -362,5 +372,92 @@ pub fn replay(args: &[String]) {
             }
         }
     });
+    s.print();
+}
+
+
+// ------------------------------------------------------------------ direction V
+/// `vh gates record --seed S --runs R --out F`: random connect sequences over 12 gates on 7 modules
+/// (owner map Own12x7 of Gates.tla); call outcomes and topology observations as ndjson for Trace_Gates.
+pub fn record(args: &[String]) {
+    use std::io::Write;
+    let seed = arg_u64(args, "--seed", 1);
+    let runs = arg_u64(args, "--runs", 50);
+    let outp = arg_value(args, "--out").expect("--out");
+    let dense = arg_u64(args, "--dense", 0);
+    // 0: 7 modules (Own12x7); 1: 5 modules with up to 3 gates each (Own12x5: more rings, higher degree); 2: 6 modules (Own12x6)
+    let owner: [usize; 12] = match dense {
+        1 => [1, 1, 1, 2, 2, 2, 3, 3, 4, 4, 5, 5],
+        2 => [1, 1, 1, 2, 2, 3, 3, 4, 5, 5, 6, 6],
+        _ => [1, 1, 1, 2, 2, 3, 3, 4, 5, 6, 7, 7],
+    };
+    let nm = match dense { 1 => 5, 2 => 6, _ => 7 };
+    let names = ["m1", "m2", "m2.x", "m3", "m3.y", "mm", "z"];
+    let mut rng = Rng(seed.wrapping_mul(0x51_7cc1_b727_220a_95) ^ 0x6a7e5);
+    let mut out = std::io::BufWriter::new(std::fs::File::create(&outp).unwrap());
+    let mut s = Summary::default();
+    for r in 0..runs {
+        silence_panics();
+        watchdog::enter(|| json!({"gates_record_run": r, "seed": seed}).to_string());
+        writeln!(out, "{}", json!({"op": "reset"})).unwrap();
+        let mut sim = Sim::new(());
+        for n in names.iter().take(nm) {
+            sim.node(*n, Probe { send_on: vec![] });
+        }
+        let gates: Vec<GateRef> = (0..12).map(|g| sim.gate(names[owner[g] - 1], &format!("g{}", g + 1))).collect();
+        let ncalls = 5 + rng.below(5);
+        let mut dead = false;
+        for _ in 0..ncalls {
+            // mostly pick gates that can still take a peer, so that most runs end with an observation
+            let free: Vec<usize> = (0..12).filter(|g| gates[*g].kind() != GateKind::Transit).collect();
+            let pick = |rng: &mut Rng| if !free.is_empty() && !rng.chance(1, 25) { free[rng.below(free.len() as u64) as usize] } else { rng.below(12) as usize };
+            let a = pick(&mut rng);
+            let b = if rng.chance(1, 15) { a } else { pick(&mut rng) };
+            let res = catch_unwind(AssertUnwindSafe(|| gates[a].clone().connect(gates[b].clone(), None)));
+            // classify the outcome from what can be observed
+            let kind_before_ok = res.is_ok();
+            let resname = if a == b {
+                if kind_before_ok { "ok" } else { "panic_self" }
+            } else if kind_before_ok {
+                "ok_or_noop"
+            } else {
+                "panic_full"
+            };
+            writeln!(out, "{}", json!({"op": "connect", "a": a + 1, "b": b + 1, "res": resname})).unwrap();
+            if resname == "panic_full" {
+                dead = true;
+                break;
+            }
+        }
+        if !dead {
+            let gidx = |g: &GateRef| gates.iter().position(|x| std::sync::Arc::ptr_eq(x, g)).map(|i| i + 1).unwrap_or(0);
+            let midx = |p: &str| names.iter().position(|x| *x == p).map(|i| i + 1).unwrap_or(0);
+            let gobs: Vec<Value> = gates.iter().enumerate().map(|(i, g)| {
+                let kind = match g.kind() { GateKind::Standalone => "standalone", GateKind::Endpoint => "endpoint", GateKind::Transit => "transit" };
+                let path: Vec<usize> = g.path_iter().map(|it| it.take(64).map(|c| gidx(&c.endpoint)).collect()).unwrap_or_default();
+                json!({"g": i + 1, "kind": kind, "path": path})
+            }).collect();
+            let view = |t: &Topology<(), ()>| -> Value {
+                let nodes: Vec<usize> = t.nodes().iter().map(|n| midx(n.module().path().as_str())).collect();
+                let edges: Vec<Value> = t.edges().map(|e| json!([midx(e.from.module().path().as_str()), midx(e.to.module().path().as_str()), gidx(&e.from.gate()), gidx(&e.to.gate())])).collect();
+                json!({"nodes": nodes, "edges": edges, "connected": t.connected(), "bidirectional": t.bidirectional()})
+            };
+            let globals = sim.globals();
+            let topo = globals.topology();
+            let spanned: Vec<Value> = (0..nm).map(|m| {
+                let mr = globals.get(&ObjectPath::from(names[m])).unwrap();
+                json!({"root": m + 1, "view": view(&Topology::spanned(mr))})
+            }).collect();
+            let dijkstra: Vec<Value> = (0..nm).map(|m| {
+                let map = topo.dijkstra(names[m]);
+                let targets: Vec<Value> = map.iter().map(|(k, e)| json!([midx(k.as_str()), gidx(&e.from.gate()), gidx(&e.to.gate())])).collect();
+                json!({"src": m + 1, "targets": targets})
+            }).collect();
+            writeln!(out, "{}", json!({"op": "obs", "gates": gobs, "global": view(&topo), "spanned": spanned, "dijkstra": dijkstra})).unwrap();
+        }
+        s.behaviours += 1;
+        drop(sim);
+    }
+    out.flush().unwrap();
     s.print();
 }
